@@ -16,7 +16,7 @@ from .C06 import fold
 
 MATH = "typhon/math/common.py"
 ATM = "typhon/physics/atmosphere.py"
-EXPECT = {"C14.api": 1, "C14.argorder": 2, "C14.iwv": 3, "C14.crh": 5, "C14.p2h": 4, "C14.isa": 4, "C14.pure": 4}
+EXPECT = {"C14.api": 1, "C14.argorder": 2, "C14.iwv": 3, "C14.crh": 5, "C14.p2h": 4, "C14.isa": 5, "C14.pure": 4}
 
 
 def rule_api(ctx):
@@ -711,6 +711,29 @@ def rule_isa(ctx):
         return "np.log(%s)" % what if logd else what
     got = {"pressure": (shape(xp, "p"), shape(under["pressure"][1], "?")), "height": (shape(xh, "h"), shape(under["height"][1], "?"))}
     ok = got["pressure"] == ("np.log(p)", "np.log(%s)" % z0) and got["height"] == ("h", z0)
+    # the coordinate is used as the caller gave it: every definition of it that reaches the interpolation is the parameter itself or a
+    # conversion that keeps the value (asarray / astype(float)) - a rescaling on some condition ("looks like hPa") reads the table elsewhere
+    rescaled = []
+    chain_defs, todo_, seen_ = [], [enclosing_stmt(c_) for c_ in ips], set()
+    while todo_:
+        at_d = todo_.pop()
+        for d_ in flow.defs(z0, at_d):
+            if d_ == "param" or id(d_) in seen_:
+                continue
+            seen_.add(id(d_))
+            chain_defs.append(d_)
+            todo_.append(d_)            # the definitions that reach this one (z = f(z))
+    for d_ in chain_defs:
+        v_ = flow._def_value(d_, z0) if isinstance(d_, ast.Assign) else (ast.BinOp(left=d_.target, op=d_.op, right=d_.value) if isinstance(d_, ast.AugAssign) else None)
+        t_ = str(norm(v_)).replace(" ", "") if v_ is not None else "?"
+        keeps = t_ == z0 or t_ in ("np.asarray(%s)" % z0, "np.asarray(%s,dtype=float)" % z0, "np.asanyarray(%s)" % z0, "np.array(%s)" % z0, "np.array(%s,dtype=float)" % z0,
+                       "%s.astype(float)" % z0, "np.atleast_1d(%s)" % z0, "np.float64(%s)" % z0, "float(%s)" % z0,
+                       "np.log(%s)" % z0, "numpy.log(%s)" % z0)        # (the logarithm of the pressure branch is decided below)
+        if not keeps:
+            rescaled.append(str(norm(d_))[:60])
+    ctx.ob("standard_atmosphere.argument", not rescaled, "re-definitions of %s in front of the interpolation: %s" % (z0, rescaled or "none (or value-preserving conversions)"),
+           "the height / pressure is used as given (Pa stays Pa: a guessed unit conversion applies twice to genuine Pa values of the upper atmosphere)",
+           node=ips[0], func=f)
     ctx.ob("standard_atmosphere.pressure_branch", ok, "pressure: interp1d(%s, ..)(%s); height: interp1d(%s, ..)(%s)" % (got["pressure"] + got["height"]),
            "z_ref = log(p table) and z = log(z): both sides of the interpolation in log-pressure; plain heights otherwise",
            node=ip[0], func=f)
